@@ -142,15 +142,18 @@ def parseVSig (s : String) : Option VSig :=
            sigText := ← hexBytes sig }
   | _ => none
 
-def parseVRecs (rr o c : String) : Option (List VRec) :=
+def parseVRecs (rr o c : String) (tg : Option String := none) : Option (List VRec) :=
   if rr == "-" then some [] else do
   let ws ← (rr.splitOn ",").mapM hexBytes
   let os ← (o.splitOn ",").mapM hexBytes
   let cs ← (c.splitOn ",").mapM hexBytes
-  if ws.length != os.length || ws.length != cs.length then none else
-  ((ws.zip os).zip cs).mapM fun ((w, nm), rd) => do
+  let ts ← match tg with
+    | some t => (t.splitOn ",").mapM hexBytes
+    | none => some (ws.map (fun _ => []))
+  if ws.length != os.length || ws.length != cs.length || ws.length != ts.length then none else
+  (((ws.zip os).zip cs).zip ts).mapM fun (((w, nm), rd), t) => do
     let (ls, typ, cls) ← wireHeader w
-    some { name := nm, typ := typ, cls := cls, ownerLabels := ls, canonRd := rd }
+    some { name := nm, typ := typ, cls := cls, ownerLabels := ls, canonRd := rd, target := t }
 
 def parseCurve (x : String) : Option Bool := if x == "t" then some true else if x == "f" then some false else none
 
@@ -226,11 +229,12 @@ def step (st : State) (w : List String) : State × String :=
       let cv := cryptoVerify stdVerify b64Decode limits vkeyTag false orc vk vs set
       (st, s!"own={verdictStr own} cv={if ownAlg vk.alg then verdictStr cv else "lib:reject"}")
     | _, _, _, _ => (st, "bad-op")
-  | ["vfy", "msg", z, ks, ss, rr, a, o, c, sw, p, hx] =>
+  | ["vfy", "msg", z, ks, ss, rr, a, o, c, sw, p, hx, tg] =>
     let keysO : Option (List VKey) := if (ks.drop 2).toString == "-" then some [] else ((ks.drop 2).toString.splitOn ";").mapM parseVKey
     let sigsO : Option (List VSig) := if (ss.drop 2).toString == "-" then some [] else ((ss.drop 2).toString.splitOn ";").mapM parseVSig
     match hexBytes (z.drop 2).toString, keysO, sigsO,
-        parseVRecs (rr.drop 3).toString (o.drop 2).toString (c.drop 2).toString, (a.drop 2).toString.toNat? with
+        parseVRecs (rr.drop 3).toString (o.drop 2).toString (c.drop 2).toString (some (tg.drop 3).toString),
+        (a.drop 2).toString.toNat? with
     | some zone, some keys, some sigs, some recs, some nAns =>
       let sws := (sw.drop 3).toString.splitOn ";"
       let pers := (p.drop 2).toString.splitOn ";"
